@@ -213,3 +213,8 @@ package parser
 //@ func (p *parser) parseReservedEndLineComments(node *node32) (ReservedComments string, err error)
 //@   requires p != nil && node != nil && wfPEG(p)
 //@   loop 1 invariant node == nil || pegowner(node) == ruleSkip || pegowner(node) == ruleSkipLine
+
+// File-system front end (reads files, runs the PEG engine): assumed; an AST or an error.
+//@ func ParseFile(path string, includeDirs []string, recursive bool) (*Thrift, error)
+//@   trusted
+//@   ensures result1 == nil ==> result0 != nil && wfIncludes()
